@@ -614,6 +614,18 @@ fn fault_error(a: &Action) -> Option<Resp> {
 			Some(r)
 		}
 		Action::AcmeLongDetail(t, shift) => Some(Resp::problem(t, status_for(t), &format!("{}{}", "x".repeat(*shift), "\u{1D11E}\u{20AC}\u{E9}".repeat(180)))),
+		Action::AcmeEmptyDetail(t) => Some(Resp::problem(t, status_for(t), "")),
+		Action::AcmeNoDetail(t) => {
+			let mut r = Resp::json(status_for(t), json!({"type": format!("urn:ietf:params:acme:error:{t}"), "status": status_for(t)}));
+			r.ctype = "application/problem+json";
+			Some(r)
+		}
+		Action::AcmeHugeDetail(t) => {
+			let sub = json!({"type": format!("urn:ietf:params:acme:error:{t}"), "detail": "one of many sub-problems ".repeat(20), "identifier": {"type": "dns", "value": "example.org"}});
+			let mut r = Resp::json(status_for(t), json!({"type": format!("urn:ietf:params:acme:error:{t}"), "detail": "a long explanation, sentence after sentence. ".repeat(140), "status": status_for(t), "subproblems": [sub.clone(), sub.clone(), sub]}));
+			r.ctype = "application/problem+json";
+			Some(r)
+		}
 		Action::AcmeNoType => {
 			let mut r = Resp::json(400, json!({"detail": "injected problem without a type", "status": 400}));
 			r.ctype = "application/problem+json";
@@ -1205,11 +1217,29 @@ fn process(g: &mut CaState, idx: usize, head: &Head, path: &str, pos: &Pos, oid:
 				let body = format!("{leaf}{broken}").into_bytes();
 				return Resp { status: 200, ctype: "application/pem-certificate-chain", body, json: None, location: None, with_nonce: true };
 			}
+			if let (Some(Action::ReversedChain), Some(pem)) = (fault, g.orders[oid].issued_pem.clone()) {
+				let txt = String::from_utf8_lossy(&pem).to_string();
+				let mut blocks: Vec<String> = txt.split_inclusive("-----END CERTIFICATE-----\n").filter(|b| b.contains("BEGIN CERTIFICATE")).map(|b| b.to_string()).collect();
+				blocks.reverse();
+				return Resp { status: 200, ctype: "application/pem-certificate-chain", body: blocks.concat().into_bytes(), json: None, location: None, with_nonce: true };
+			}
 			match g.orders[oid].issued_pem.clone() {
 				Some(pem) => {
 					if g.order_status(oid) != "valid" {
 						g.event(idx, "download-early", "certificate requested before the order was valid".into());
 					}
+					// the same certificates in another legal text form
+					let pem = match g.plan.pem_eol.as_str() {
+						"crlf" => String::from_utf8_lossy(&pem).replace('\n', "\r\n").into_bytes(),
+						"no-final" => {
+							let mut p = pem.clone();
+							while p.last() == Some(&b'\n') {
+								p.pop();
+							}
+							p
+						}
+						_ => pem,
+					};
 					g.orders[oid].served.push(pem.clone());
 					Resp { status: 200, ctype: "application/pem-certificate-chain", body: pem, json: None, location: None, with_nonce: true }
 				}
@@ -1374,7 +1404,7 @@ impl MockCa {
 		let issuer = Arc::new(Issuer::new(3)?);
 		let (scheme, host) = match &tls {
 			Some(t) => ("https", t.host.clone()),
-			None => ("http", "127.0.0.1".to_string()),
+			None => ("http", if plan.host_alias.is_empty() { "127.0.0.1".to_string() } else { plan.host_alias.clone() }),
 		};
 		let base = format!("{scheme}://{host}:{port}");
 		let seed = plan.seed;
